@@ -88,6 +88,7 @@ structure SInv (v : Variant) (mid : Bool) (s : StreamSt) : Prop where
   open_seg_id : ∀ g, s.nextSegment = some g → g.id = s.nextSegmentID
   open_part_id : ∀ p, s.nextPart = some p → p.id = s.nextPartID
   open_part_ts : v = .mpegts → s.nextPart = none
+  ts_npid : v = .mpegts → s.nextPartID = 0
   top : mid = false → v ≠ .mpegts → s.nextSegment.isSome = true → s.nextPart.isSome = true
   midp : mid = true → v ≠ .mpegts ∧ s.nextPart = none ∧ ∃ g, s.nextSegment = some g ∧ g.stored ≠ []
   seg_idx : ∀ i g, s.segments[i]? = some (.seg g) → g.id = s.deleteCount + i
@@ -114,8 +115,6 @@ structure InvAt (mid : Option Nat) (st : State) : Prop where
   wf_tracks : st.cfg.tracks ≠ []
   wf_len : st.streams.length = if st.cfg.variant = .mpegts then 1 else st.cfg.tracks.length
   wf_count : 1 ≤ st.cfg.segmentCount
-  sync : ∀ si sj, si < st.streams.length → sj < st.streams.length →
-    (st.stream si).nextSegment.isSome = (st.stream sj).nextSegment.isSome
   sinv : ∀ si, si < st.streams.length → SInv st.cfg.variant (decide (mid = some si)) (st.stream si)
   nodup : (keys st.paths).Nodup
   p_index : lookupPath st.paths .index = some .multivariant
@@ -127,7 +126,14 @@ structure InvAt (mid : Option Nat) (st : State) : Prop where
   p_seg : ∀ si id h, lookupPath st.paths (.seg si id) = some h ↔ RegSeg st.cfg.variant (st.stream si) id h
   p_part : ∀ si id h, lookupPath st.paths (.part si id) = some h ↔ RegPart st.cfg.variant si (st.stream si) id h
 
-abbrev Inv (st : State) : Prop := InvAt none st
+/-- all streams have an open segment, or none has (`createFirstSegment` / `rotateSegments` act on all) -/
+def Sync (st : State) : Prop :=
+  ∀ si sj, si < st.streams.length → sj < st.streams.length →
+    (st.stream si).nextSegment.isSome = (st.stream sj).nextSegment.isSome
+
+structure Inv (st : State) : Prop where
+  inv : InvAt none st
+  sync : Sync st
 
 theorem InvAt.of_coreEq {mid : Option Nat} {st st' : State} (h : CoreEq st st') (hI : InvAt mid st) : InvAt mid st' := by
   have hs : ∀ si, st'.stream si = st.stream si := h.stream
@@ -135,7 +141,6 @@ theorem InvAt.of_coreEq {mid : Option Nat} {st st' : State} (h : CoreEq st st') 
   · rw [h.cfg]; exact hI.wf_tracks
   · rw [h.cfg, h.streams]; exact hI.wf_len
   · rw [h.cfg]; exact hI.wf_count
-  · intro si sj; rw [h.streams, hs, hs]; exact hI.sync si sj
   · intro si; rw [h.streams, h.cfg, hs]; exact hI.sinv si
   · rw [h.paths]; exact hI.nodup
   · rw [h.paths]; exact hI.p_index
@@ -144,6 +149,146 @@ theorem InvAt.of_coreEq {mid : Option Nat} {st st' : State} (h : CoreEq st st') 
   · intro si; rw [h.paths, hs]; exact hI.p_init_pres si
   · intro si; rw [h.paths, hs, h.cfg]; exact hI.p_seg si
   · intro si; rw [h.paths, hs, h.cfg]; exact hI.p_part si
+
+theorem Sync.of_coreEq {st st' : State} (h : CoreEq st st') (hS : Sync st) : Sync st' := by
+  intro si sj; rw [h.streams, h.stream, h.stream]; exact hS si sj
+
+theorem Inv.of_coreEq {st st' : State} (h : CoreEq st st') (hI : Inv st) : Inv st' :=
+  ⟨hI.inv.of_coreEq h, hI.sync.of_coreEq h⟩
+
+/-! ### streams that differ only in fields C05 does not look at -/
+
+def segView (g : Seg) : Nat × List Part × List Part := (g.id, g.parts, g.stored)
+
+structure LocalEq (s s' : StreamSt) : Prop where
+  segments : s'.segments = s.segments
+  nsid : s'.nextSegmentID = s.nextSegmentID
+  npid : s'.nextPartID = s.nextPartID
+  dc : s'.deleteCount = s.deleteCount
+  init : s'.initPresent = s.initPresent
+  part : s'.nextPart.map (·.id) = s.nextPart.map (·.id)
+  seg : s'.nextSegment.map segView = s.nextSegment.map segView
+
+theorem LocalEq.refl (s : StreamSt) : LocalEq s s := ⟨rfl, rfl, rfl, rfl, rfl, rfl, rfl⟩
+
+theorem LocalEq.seg_some {s s' : StreamSt} (h : LocalEq s s') {g' : Seg} (hg : s'.nextSegment = some g') :
+    ∃ g, s.nextSegment = some g ∧ g.id = g'.id ∧ g.parts = g'.parts ∧ g.stored = g'.stored := by
+  have := h.seg
+  rw [hg] at this
+  cases hn : s.nextSegment with
+  | none => rw [hn] at this; simp at this
+  | some g =>
+    rw [hn] at this
+    simp only [Option.map_some, Option.some.injEq, segView, Prod.mk.injEq] at this
+    exact ⟨g, rfl, this.1.symm, this.2.1.symm, this.2.2.symm⟩
+
+theorem LocalEq.seg_isSome {s s' : StreamSt} (h : LocalEq s s') : s'.nextSegment.isSome = s.nextSegment.isSome := by
+  have := congrArg Option.isSome h.seg
+  simpa using this
+
+theorem LocalEq.part_isSome {s s' : StreamSt} (h : LocalEq s s') : s'.nextPart.isSome = s.nextPart.isSome := by
+  have := congrArg Option.isSome h.part
+  simpa using this
+
+theorem LocalEq.part_some {s s' : StreamSt} (h : LocalEq s s') {p' : Part} (hp : s'.nextPart = some p') :
+    ∃ p, s.nextPart = some p ∧ p.id = p'.id := by
+  have := h.part
+  rw [hp] at this
+  cases hn : s.nextPart with
+  | none => rw [hn] at this; simp at this
+  | some p =>
+    rw [hn] at this
+    simp only [Option.map_some, Option.some.injEq] at this
+    exact ⟨p, rfl, this.symm⟩
+
+theorem LocalEq.realSegs {s s' : StreamSt} (h : LocalEq s s') : realSegs s' = realSegs s := by
+  unfold Paths.realSegs; rw [h.segments]
+
+theorem LocalEq.openParts {s s' : StreamSt} (h : LocalEq s s') : openParts s' = openParts s := by
+  unfold Paths.openParts
+  cases hn' : s'.nextSegment with
+  | none =>
+    have := h.seg_isSome; rw [hn'] at this
+    cases hn : s.nextSegment with
+    | none => rfl
+    | some g => rw [hn] at this; simp at this
+  | some g' =>
+    obtain ⟨g, hg, _, hp, _⟩ := h.seg_some hn'
+    rw [hg]; exact hp.symm
+
+theorem LocalEq.openStored {s s' : StreamSt} (h : LocalEq s s') : openStored s' = openStored s := by
+  unfold Paths.openStored
+  cases hn' : s'.nextSegment with
+  | none =>
+    have := h.seg_isSome; rw [hn'] at this
+    cases hn : s.nextSegment with
+    | none => rfl
+    | some g => rw [hn] at this; simp at this
+  | some g' =>
+    obtain ⟨g, hg, _, _, hp⟩ := h.seg_some hn'
+    rw [hg]; exact hp.symm
+
+theorem LocalEq.winParts {s s' : StreamSt} (h : LocalEq s s') : winParts s' = winParts s := by
+  unfold Paths.winParts; rw [h.realSegs, h.openParts]
+
+theorem LocalEq.winStored {s s' : StreamSt} (h : LocalEq s s') : winStored s' = winStored s := by
+  unfold Paths.winStored; rw [h.realSegs, h.openStored]
+
+theorem SInv.congr {v mid s s'} (h : LocalEq s s') (hI : SInv v mid s) : SInv v mid s' := by
+  constructor
+  · intro g' hg'
+    obtain ⟨g, hg, hid, _, _⟩ := h.seg_some hg'
+    rw [← hid, h.nsid]; exact hI.open_seg_id g hg
+  · intro p' hp'
+    obtain ⟨p, hp, hid⟩ := h.part_some hp'
+    rw [← hid, h.npid]; exact hI.open_part_id p hp
+  · intro hv
+    have h1 := hI.open_part_ts hv
+    have h2 := h.part_isSome
+    rw [h1] at h2
+    cases hn : s'.nextPart with
+    | none => rfl
+    | some p => rw [hn] at h2; simp at h2
+  · rw [h.npid]; exact hI.ts_npid
+  · intro hm hv hsome
+    rw [h.part_isSome]; rw [h.seg_isSome] at hsome
+    exact hI.top hm hv hsome
+  · intro hm
+    obtain ⟨hv, hnp, g, hg, hne⟩ := hI.midp hm
+    refine ⟨hv, ?_, ?_⟩
+    · have h2 := h.part_isSome
+      rw [hnp] at h2
+      cases hn : s'.nextPart with
+      | none => rfl
+      | some p => rw [hn] at h2; simp at h2
+    · have h2 := h.seg_isSome
+      rw [hg] at h2
+      cases hn : s'.nextSegment with
+      | none => rw [hn] at h2; simp at h2
+      | some g' =>
+        obtain ⟨g0, hg0, _, _, hst⟩ := h.seg_some hn
+        rw [hg] at hg0; cases hg0
+        exact ⟨g', rfl, hst ▸ hne⟩
+  · intro i g; rw [h.segments, h.dc]; exact hI.seg_idx i g
+  · rw [h.segments, h.dc, h.nsid]; exact hI.seg_len
+  · rw [h.segments, h.dc, h.nsid]; exact hI.seg_empty
+  · rw [h.winStored, h.npid]; exact hI.part_ids
+  · intro g; rw [h.segments]; exact hI.parts_win g
+  · intro g' hg'
+    obtain ⟨g, hg, _, hp, hst⟩ := h.seg_some hg'
+    rw [← hp, ← hst]; exact hI.parts_open g hg
+  · intro hv g; rw [h.segments]; exact hI.stored_one hv g
+  · intro hv g' hg'
+    obtain ⟨g, hg, _, _, hst⟩ := h.seg_some hg'
+    rw [← hst]; exact hI.stored_open hv g hg
+  · rw [h.segments, h.init]; exact hI.init_present
+  · rw [h.segments, h.npid]; exact hI.hint_present
+
+theorem RegSeg.congr {v s s' id h} (hl : LocalEq s s') : RegSeg v s' id h ↔ RegSeg v s id h := by
+  unfold RegSeg; rw [hl.segments]
+
+theorem RegPart.congr {v si s s' id h} (hl : LocalEq s s') : RegPart v si s' id h ↔ RegPart v si s id h := by
+  unfold RegPart; rw [hl.winParts, hl.npid]
 
 /-! ### consequences of `SInv` -/
 
